@@ -271,6 +271,17 @@ class ComponentLevel3( ComponentLevel2 ):
     # connect. If failed, we fall back to by-name connection
 
     def connect_by_name( this, other ):
+      # The statement is symmetric: a connectable field that only the other
+      # side has is an error as well
+      for name in sorted(other.__dict__):
+        if name[0] != '_' and isinstance( other.__dict__[ name ], Connectable ) and not hasattr( this, name ):
+          raise InvalidConnectionError("There is no \"{}\" field in {} "
+          "to connect to {} during by-name connection\n"
+          "Suggestion: check the implementation of \n"
+          "          - {} (class {})\n"
+          "          - {} (class {})".format( name, this, other.__dict__[ name ],
+            repr(other), type(other), repr(this), type(this) ) )
+
       def recursive_connect( this_obj, other_obj ):
         if isinstance( this_obj, list ):
           for i in range(len(this_obj)):
